@@ -193,7 +193,8 @@ Section Strict.
       (* Bag *)
       cbn [strict]. apply maybe_add_strict. cbn [allP snd strict]. repeat split; try apply fnum_strict.
       apply allP_map. apply Forall_forall. intros [bk c] _. cbn [strict allP snd fst].
-      repeat split; try apply fnum_strict. destruct bk; cbn [tok_bag]; try exact I. apply fnum_strict.
+      repeat split; try apply fnum_strict. destruct bk; cbn [tok_bag]; try exact I; try apply fnum_strict.
+      cbn [strict]. apply allP_map. apply Forall_forall. intros [x|] _; [apply fnum_strict | exact I].
     - cbn [origins_finite] in O. destruct O as (Hko & Ofx & Osp).
       assert (KT : allP strict (map (fun c => to_frag c true) fx)).
       { apply allP_map. apply allP_Forall in Ofx. rewrite Forall_forall in *. intros c Hc.
